@@ -58,7 +58,7 @@ def check_plid(rep, prog, fm):
             if isinstance(c, Op) and c.op in ("in", "eq") and c.args[0] == norm_id(fm, "plID"):
                 tgt = c.args[1]
                 if isinstance(tgt, Op) and tgt.op == "getitem" and tgt.args[1] == Const("PLID") and \
-                        isinstance(tgt.args[0], Op) and tgt.args[0].op == "unpack" and tgt.args[0].args[1] == Const(1):
+                        isinstance(tgt.args[0], Op) and tgt.args[0].op == "getitem" and tgt.args[0].args[1] == Const(1):
                     okm = True
                 if c.op == "eq" and isinstance(tgt, Op) and tgt.op == "getslice":
                     okm = True
@@ -66,7 +66,7 @@ def check_plid(rep, prog, fm):
               "if plid in summary['PLID']", "--plid does not compare the normalised query with the summary's PLID")
     for e in stores:
         key, val = fm.norm(e.data[1]), fm.norm(e.data[2])
-        okk = isinstance(key, Op) and key.op == "unpack" and key.args[1] == Const(0) and isinstance(val, Op) and val.op == "unpack" \
+        okk = isinstance(key, Op) and key.op == "getitem" and key.args[1] == Const(0) and isinstance(val, Op) and val.op == "getitem" \
             and val.args[1] == Const(1) and key.args[0] == val.args[0]
         rep.check(okk, rule, "matches are stored as result[entry id] = summary of the same PEL", q, e.node,
                   "match is not stored under its own entry id", node=e.node)
@@ -149,7 +149,7 @@ def check_src(rep, prog, fm):
 
     def is_summary_src(t):
         return isinstance(t, Op) and t.op == "getitem" and t.args[1] == Const("SRC") and isinstance(t.args[0], Op) and \
-            t.args[0].op == "unpack" and t.args[0].args[1] == Const(1)
+            t.args[0].op == "getitem" and t.args[0].args[1] == Const(1)
     rep.check(inc is not None and is_summary_src(inc[1].args[1]), rule, "--src S keeps a PEL iff S is contained in its reference code", q,
               "if config.src and config.src in summary['SRC']", "--src does not test 'option value in summary SRC'")
     okx = exc is not None and is_summary_src(exc[1].args[0])
@@ -199,7 +199,7 @@ def check_src(rep, prog, fm):
               "log (%s)" % detail)
     for e in stores:
         key, val = fm.norm(e.data[1]), fm.norm(e.data[2])
-        okk = isinstance(key, Op) and key.op == "unpack" and key.args[1] == Const(0) and isinstance(val, Op) and val.op == "unpack" \
+        okk = isinstance(key, Op) and key.op == "getitem" and key.args[1] == Const(0) and isinstance(val, Op) and val.op == "getitem" \
             and val.args[1] == Const(1) and key.args[0] == val.args[0]
         rep.check(okk, rule, "matches are stored as result[entry id] = summary of the same PEL", q, e.node, "match is not stored under its own entry id", node=e.node)
     # empty result still printed
